@@ -97,6 +97,9 @@ func c05Body(sc c05Scn) func(x *vs.Exec) {
 		// record the worker generation (activeDial) every transport dial belongs to
 		gens := map[*fxDial]*c05DialGen{}
 		hook := func(rec *fxDial, begin bool) {
+			if s.Free {
+				return // the free-running race pass evaluates no oracle; keep the harness out of the way
+			}
 			if begin {
 				g := &c05DialGen{rec: rec, startT: time.Now()}
 				if ad, ok := env.Swarm.dsync.dials[P.ID]; ok {
@@ -442,7 +445,7 @@ func c05Scenario(sc c05Scn) *vs.Scenario {
 }
 
 func TestVerifC05(t *testing.T) {
-	for _, n := range []string{"P", "relay", "mallory", "local"} {
+	for _, n := range []string{"P", "Q", "R", "relay", "mallory", "local"} {
 		fxID(n)
 	}
 	scs := c05Scenarios(vrep.Thorough())
@@ -450,6 +453,11 @@ func TestVerifC05(t *testing.T) {
 		rp, err := vs.LoadReplay(p)
 		if err != nil {
 			t.Fatal(err)
+		}
+		if rp.Scenario == c05MultiName {
+			x := vs.Replay(t, c05MultiScenario(), rp.Choices)
+			fmt.Fprintf(os.Stdout, "REPLAY %s choices=%v\n%s\nverdict: key=%q %s\npanic=%s outcome=%s\n", rp.Scenario, rp.Choices, strings.Join(x.S.Log, "\n"), x.VioKey, x.VioDesc, x.Panic, x.Outcome)
+			return
 		}
 		for _, sc := range c05Scenarios(true) {
 			if sc.Name == rp.Scenario {
@@ -492,6 +500,14 @@ func TestVerifC05(t *testing.T) {
 		}
 		bounds[sc.Name] = b
 		vs.Explore(t, c05Scenario(sc), vs.Config{MaxBound: b, Deadline: time.Now().Add(share), ShardI: si, ShardN: sn, Property: "C05"}, r)
+	}
+	{
+		b := 1
+		if vrep.Thorough() {
+			b = 2
+		}
+		bounds[c05MultiName] = b
+		vs.Explore(t, c05MultiScenario(), vs.Config{MaxBound: b, Deadline: vrep.Deadline(), ShardI: si, ShardN: sn, Property: "C05"}, r)
 	}
 	r.Bounds["deviation_bound_per_scenario"] = bounds
 	r.Flush()
